@@ -243,3 +243,95 @@ def src(n, depth=0):
         return "<lambda>"
     c = children(n)
     return "%s(%s)" % (k, ", ".join(src(x) for x in c[:4]))
+
+
+def single_assignment_locals(fn):
+    """did -> initialiser node, for locals that are initialised at their declaration and never stored to again
+    (nor have their address taken / bound to a non-const reference parameter -- approximated by: never the
+    operand of unary & and never an lvalue argument of a call whose parameter type is a non-const reference)."""
+    inits = {}
+    for n in fn.nodes():
+        if n.get("k") == "VarDecl" and not n.get("parm") and n.get("init") is not None:
+            inits[n["did"]] = n["init"]
+    dirty = set()
+    for lhs, node, op in writes(fn):
+        l = strip(lhs)
+        if l is not None and l.get("k") == "DeclRefExpr" and l.get("did") in inits:
+            dirty.add(l["did"])
+    for n in fn.nodes():
+        if n.get("k") == "UnaryOperator" and n.get("op") == "&":
+            l = strip(n["ch"][0])
+            if l is not None and l.get("k") == "DeclRefExpr" and l.get("did") in inits:
+                dirty.add(l["did"])
+    return {d: e for d, e in inits.items() if d not in dirty}
+
+
+def norm(n, locals_map=None, depth=0):
+    """Normal form of an expression as a string: locals inlined through their unique initialiser,
+    parentheses / implicit casts / value-preserving casts dropped."""
+    if n is None:
+        return "?"
+    n = strip_casts(n)
+    k = n.get("k")
+    if k == "DeclRefExpr" and locals_map and n.get("did") in locals_map and depth < 8:
+        return norm(locals_map[n["did"]], locals_map, depth + 1)
+    if k in ("IntegerLiteral",):
+        return str(n.get("v"))
+    if k == "FloatingLiteral":
+        try:
+            from fractions import Fraction
+            f = Fraction(n.get("v"))
+            return str(f.numerator) if f.denominator == 1 else str(n.get("v"))
+        except Exception:
+            return str(n.get("v"))
+    if k in ("CXXBoolLiteralExpr",):
+        return str(n.get("v"))
+    if k == "DeclRefExpr":
+        return str(n.get("ref"))
+    if k == "CXXThisExpr":
+        return "this"
+    if k == "MemberExpr":
+        c = n.get("ch")
+        b = norm(c[0], locals_map, depth) if c else "?"
+        nm = str(n.get("ref", "?")).split("(")[0].split("::")[-1]
+        return nm if b == "this" else "%s.%s" % (b, nm)
+    if k in ("BinaryOperator", "CompoundAssignOperator"):
+        return "(%s %s %s)" % (norm(n["ch"][0], locals_map, depth), n.get("op"), norm(n["ch"][1], locals_map, depth))
+    if k == "UnaryOperator":
+        if n.get("op") == "*":
+            return norm(n["ch"][0], locals_map, depth) + ".*"
+        return "%s%s" % (n.get("op"), norm(n["ch"][0], locals_map, depth))
+    if k == "ConditionalOperator":
+        return "(%s ? %s : %s)" % tuple(norm(c, locals_map, depth) for c in n["ch"][:3])
+    if k == "ArraySubscriptExpr":
+        return "%s[%s]" % (norm(n["ch"][0], locals_map, depth), norm(n["ch"][1], locals_map, depth))
+    if k == "CXXOperatorCallExpr":
+        ch = n.get("ch", [])
+        op = n.get("op")
+        if op == "[]" and len(ch) >= 3:
+            return "%s[%s]" % (norm(ch[1], locals_map, depth), norm(ch[2], locals_map, depth))
+        if op == "*" and len(ch) == 2:
+            return norm(ch[1], locals_map, depth) + ".*"
+        if op == "->" and len(ch) == 2:
+            return norm(ch[1], locals_map, depth) + ".*"
+        if len(ch) == 3:
+            return "(%s %s %s)" % (norm(ch[1], locals_map, depth), op, norm(ch[2], locals_map, depth))
+        if len(ch) == 2:
+            return "%s%s" % (op, norm(ch[1], locals_map, depth))
+    if k == "CXXMemberCallExpr":
+        ch = n.get("ch", [])
+        return "%s(%s)" % (norm(ch[0], locals_map, depth) if ch else "?", ", ".join(norm(c, locals_map, depth) for c in ch[1:]))
+    if k == "CallExpr":
+        ch = n.get("ch", [])
+        return "%s(%s)" % (str(n.get("cname", "?")), ", ".join(norm(c, locals_map, depth) for c in ch[1:]))
+    if k in ("CXXConstructExpr", "CXXTemporaryObjectExpr"):
+        ch = n.get("ch", [])
+        if len(ch) == 1 and (n.get("copy") or n.get("elidable")):
+            return norm(ch[0], locals_map, depth)
+        return "%s(%s)" % (n.get("cname", "?"), ", ".join(norm(c, locals_map, depth) for c in ch))
+    if k == "CXXDefaultArgExpr":
+        return norm(n.get("expr"), locals_map, depth) if n.get("expr") else "<default>"
+    if k == "CXXNewExpr":
+        ch = n.get("ch", [])
+        return "new " + (norm(ch[-1], locals_map, depth) if ch else str(n.get("at")))
+    return src(n)
